@@ -1,4 +1,5 @@
 """Obligation name (regex) -> replay driver script (run natively on /repo with /venv/bin/python)."""
 DRIVERS = [
+    (r"thread_local\.py:ThreadLocal\.", "c15_threadlocal.py"),
     (r"TriggerContext\.evaluate_expression/PRE/call:eval/", "c10_eval_scope.py"),
 ]
